@@ -25,6 +25,7 @@ TitleOf(v) == IF v.shape # <<>> /\ v.shape[1].k = "H" THEN v.shape[1].first ELSE
 \* what every note must look like afterwards: the note k of before is found under Moved(k)
 NoteReasons(e, b, a, title) ==
     (IF a.words # b.words THEN {<<"content-changed", b.key>>} ELSE {})
+    \cup (IF a.meta # b.meta THEN {<<"front-matter-changed", b.key>>} ELSE {})
     \cup (IF Len(a.links) # Len(b.links) THEN {<<"link-count-changed", b.key>>}
           ELSE {<<"link-retargeted", b.key, i, b.links[i].target, a.links[i].target>> :
                     i \in {j \in 1..Len(b.links) : ~b.links[j].ext /\ a.links[j].target # Moved(e, b.links[j].target)}}
